@@ -38,14 +38,16 @@ SPEC = dict(
          "non-trivial. Tags: tree = shared subtrees (sums, products, integer/rational/symbolic powers, negative powers, "
          "sin cos log exp atan2 f g); addargs / mulargs = Add / Mul argument lists sharing >= 2 arguments "
          "(match_common_args, FuncArgTracker); mixed = both; xnames = inputs that already use x0..x3 (the numbering "
-         "must skip them); userfn = user FunctionSymbols named add / mul / pow (known finding); fixed = boundary cases. "
+         "must skip them); userfn = user FunctionSymbols named add / mul / pow; binders = the names x0 x1 x2 occur only inside Derivative / Subs nodes (variable, body, point) and function arguments, next to repeated subexpressions; fixed = boundary cases. "
          "impl_stats: cse_calls, replacements_total, backsubst_eq_without_expand / _only_after_expand / "
          "_equal_by_value_only (how the oracle decided), numeric_points_judged / _discarded, "
          "subs_backsubst_not_eq_counted_only.",
     not_covered=[
         "floats, infinities, NaN, Booleans, sets, Piecewise, Derivative / Subs binders inside the inputs (generator excludes them; "
         "the checker treats binders as ordinary function applications)",
-        "inputs containing (B**-n)**e with non-integer e: re-building from a replaced B**n applies pow()'s rewrite "
+        "compound subexpressions that are a number in disguise (2-(2+x)+x: cse ends with a replacement x3 := 0, which the "
+        "certificate format excludes) are not generated",
+        "inputs containing (B**-n)**e with non-integer e (any negative inner exponent): re-building from a replaced B**n applies pow()'s rewrite "
         "(x**-1)**e -> x**(-e) (known finding C07-invpow-negative-real); excluded from generation",
         "integer exponents beyond +-4 and inputs whose expanded normal form exceeds ~400 monomials (checker cost)",
         "certificates in which a rational power of a replacement symbol occurs and whose faithfulness check fails are "
